@@ -65,8 +65,10 @@ ObsOrderFree == \A k \in 1..NT : R.pud[k] >= 0 => Near(R.pud[k], SumCost(I, Tup(
 (* ---- candidates (valid_alignments) against the cut ---- *)
 CandTuple(c) == [a \in Ann(I) |-> c[1][a]]
 Band == R.band
-MustHave == {t \in Tuples(I) \ {AllNull(I)} : SumCost(I, t) <= Crit(I, "none") - Band - 1}
-MayHave == {t \in Tuples(I) \ {AllNull(I)} : Abs(SumCost(I, t) - Crit(I, "none")) <= Band}
+\* Band = 0: the table is exact (dyadic values): a tuple exactly ON the cut must be there ("at most n * delta_empty");
+\* Band > 0: the table was observed through single-precision values, tuples within the band of the cut are not judged
+MustHave == {t \in Tuples(I) \ {AllNull(I)} : SumCost(I, t) <= Crit(I, "none") - (IF Band = 0 THEN 0 ELSE Band + 1)}
+MayHave == IF Band = 0 THEN {} ELSE {t \in Tuples(I) \ {AllNull(I)} : Abs(SumCost(I, t) - Crit(I, "none")) <= Band}
 ObsCands == R.hascands = 1 =>
     LET logged == {CandTuple(R.cands[k]) : k \in 1..Len(R.cands)} IN
     /\ Cardinality(logged) = Len(R.cands)                                   \* exactly once each
